@@ -526,9 +526,24 @@ class SmallSet {
     if (!isSmall() && !o.isSmall()) {
       return _set == o._set;
     }
-    // We have at least one set that is unsorted. Use is_permutation
+    // We have at least one set that is unsorted: compare the elements in the order of each set's comparator, as for sorted sets
     // We use equality here, not equivalence (ie using == operator instead of <)
-    return std::is_permutation(begin(), end(), o.begin(), o.end());
+    struct Eq {
+      bool operator()(const_pointer pLhs, const_pointer pRhs) const { return *pLhs == *pRhs; }
+      bool operator()(const_pointer pLhs, const_reference rhs) const { return *pLhs == rhs; }
+      bool operator()(const_reference lhs, const_pointer pRhs) const { return lhs == *pRhs; }
+    };
+
+    if (isSmall()) {
+      auto sortedPtrs = ComputeSortedPtrVec(_vec, key_comp());
+      if (o.isSmall()) {
+        auto oSortedPtrs = ComputeSortedPtrVec(o._vec, o.key_comp());
+        return std::equal(sortedPtrs.begin(), sortedPtrs.end(), oSortedPtrs.begin(), Eq());
+      }
+      return std::equal(sortedPtrs.begin(), sortedPtrs.end(), o._set.begin(), Eq());
+    }
+    auto oSortedPtrs = ComputeSortedPtrVec(o._vec, o.key_comp());
+    return std::equal(_set.begin(), _set.end(), oSortedPtrs.begin(), Eq());
   }
 
   bool operator!=(const SmallSet &o) const { return !(*this == o); }
